@@ -31,6 +31,10 @@ RULE = ("histories of 1-10 operations (concatenate, export_character_indices/_su
         "extend_matrix / update_ / replace_ / add_sequences, and edits made on the row OBJECT m[t] behind the matrix's back "
         "(extend, append, insert, del, m[t][i:j] = equally many values, del m[t][i:j]) — plus, after 60 % of the steps, a probe of the "
         "size observables of every matrix against a from-scratch count. "
+        "Every 12th case is a ROW-OBJECT history (seq3): a CharacterDataSequence with values / character types / annotations edited by "
+        "1-8 calls of append, extend (with and without type / annotation lists, also of the wrong length), del, del slice, item and "
+        "slice assignment, insert, set_at with indices from -len-2 to len+3; values judged against the plain list operation, the "
+        "three lists against 'equally long unless the call is one of the two that cannot keep them so' (non-trivial = non-empty). "
         "non-trivial = at least two rows and one non-empty row among the operands, or a "
         "concatenation of >= 2 matrices, or (world) a call after the first on a pool with a non-empty row")
 MODELLED_NOT_VERIFIED = [
@@ -65,12 +69,15 @@ MODELLED_NOT_VERIFIED = [
     "Python's list semantics gives>; slice assignments are generated only with as many values as the slice holds (a longer or "
     "shorter one leaves the parallel character-type / annotation lists of the sequence out of step — outside the statement); the "
     "PHYLIP writer is judged by its header only (oracle, no model counterpart)",
+    "C19: Model/C19Seq.lean (CharacterDataSequence as three lists of opaque numbers, 0 = None; Python's index, insert and slice "
+    "rules; asserts enabled) is hand-written and tied by the per-call comparison of all three lists and the exception class "
+    "(op seq3, a twelfth of the cases); Aligned, SeqOp.breaks, SeqOp.safe are specification-side",
     "C19: Sep, StepOK, FreshOK, metas, validRun, argViews, HCall.library are specification-side definitions",
     "C19: Gen/C19Kernels.lean (label formats, search start/step, the re-bound name of the search loop, guard order, span, padding "
     "test and insert position, export loop bounds) is regenerated from charmatrixmodel.py by harness/gen/c19kernels.py, a hand-written "
     "recogniser of the shapes listed in its docstring (anything else: Unsupported)",
 ]
-EXPLANATION = ("113 theorems in Props/C19.lean about the definitions drv_c19 runs (Model/C19.lean, Model/C19Ext.lean, Model/C19Heap.lean), none _partial. "
+EXPLANATION = ("123 theorems in Props/C19.lean about the definitions drv_c19 runs (Model/C19.lean, Model/C19Ext.lean, Model/C19Heap.lean, Model/C19Seq.lean), none _partial. "
                "(d) add_spec, replace_spec, update_spec, extend_spec, extendMatrix_spec/_eq, remove_spec / remove_untouched / remove_ok_iff / "
                "remove_partial_state, discard_spec, keep_spec, rowOp_spec. Element access: getItem_spec (matrix[taxon] creates a missing row), "
                "getItem_idempotent, setItem_spec, newSequence_spec, delItem_spec, itemsOf_spec (namespace order), maxSeqSize_spec. "
@@ -101,8 +108,19 @@ EXPLANATION = ("113 theorems in Props/C19.lean about the definitions drv_c19 run
                "history of library calls, with any operands, the pool stays without shared objects; hConcat_sim: concatenate on objects "
                "(the same object named several times included) = concatenate on the values of the named matrices, all arguments "
                "unchanged, the new matrix shares nothing; initWorld_sep: the pool a driver history starts from (one object per row) is "
-               "without sharing, so the histories the driver runs without setseq/copy are in the scope of these theorems. Not proved: "
-               "views (initWorld ms) = ms (compared). TIE A (Gen/C19Kernels.lean): "
+               "without sharing, so the histories the driver runs without setseq/copy are in the scope of these theorems; "
+               "initWorld_views: views (initWorld ms) = ms. On pools WITH user-made sharing: writeSlot_sharing (no separation "
+               "hypothesis: an in-place change of a sequence object shows under every dict entry that holds the object and under no "
+               "other; no dict changes), hBinStep_extend_sharing (a round of extend_matrix on an existing row lengthens the object once, "
+               "under all its names). history_maxSeqSize: after ANY history max_sequence_size bounds every row and is attained, and a "
+               "fill() without a size then makes every row exactly that long. THE ROW OBJECT (Model/C19Seq.lean, driver op seq3: "
+               "CharacterDataSequence = three parallel lists, Python index / insert / slice rules): pyIdx_spec, seqStep_vals (the values "
+               "after append/extend/del/insert/set/slice = the list operation), seqStep_aligned (values, character types, annotations "
+               "stay equally long under every call — also one that raises IndexError — except the two kinds SeqOp.breaks), "
+               "seqStep_breaks (those two do break it: extend raises AssertionError AFTER extending the values, a slice assignment "
+               "changes the values only), seqStep_refusal (AssertionError iff extend got a wrong-length list; an IndexError leaves the "
+               "object untouched), seqRun_aligned (histories). Not proved: whole-op results (beyond single rounds) on pools with "
+               "user-made sharing; a heap-level model in which a matrix row IS a Seq3 (rows of the matrix model carry values only). TIE A (Gen/C19Kernels.lean): "
                "gen_labels, gen_search, gen_concat_round, gen_pad, gen_export bridge the regenerated kernels to locus/cand/freeName/"
                "freeFrom/concatStep/padLoop/delLoop.")
 
@@ -1711,6 +1729,172 @@ def gen_world_case(rng, ncodes_of, max_taxa, max_w):
     return {"world": True, "dtype": h["dtype"], "ns_sizes": h["ns_sizes"], "init": h["init"][:3], "calls": []}
 
 
+
+# ------------------------------------------------------------------------------------------------ the row object (`seq3`)
+def seq_tokens(c):
+    n = c["op"]
+    opt = lambda x: "N" if x is None else str(x)
+    lst = lambda l: "N" if l is None else " ".join([str(len(l))] + [str(x) for x in l])
+    if n == "append":
+        return "append %d %d %d" % (c["v"], c["t"], c["a"])
+    if n == "extend":
+        return "extend %d %s %s %s" % (len(c["vs"]), " ".join(str(x) for x in c["vs"]), lst(c["ts"]), lst(c["as"]))
+    if n == "del":
+        return "del %d" % c["i"]
+    if n == "delslice":
+        return "delslice %s %s" % (opt(c["lo"]), opt(c["hi"]))
+    if n == "set":
+        return "set %d %d" % (c["i"], c["v"])
+    if n == "setslice":
+        return "setslice %s %s %d %s" % (opt(c["lo"]), opt(c["hi"]), len(c["vs"]), " ".join(str(x) for x in c["vs"]))
+    if n in ("insert", "setat"):
+        return "%s %d %d %d %d" % (n, c["i"], c["v"], c["t"], c["a"])
+    raise RuntimeError("unknown sequence call " + n)
+
+
+def seq_expected(state, c):
+    """the three lists after the call by plain Python list operations written out here (not the library's), and the status"""
+    v, t, a = [list(x) for x in state]
+    n = c["op"]
+    nn = lambda x: None if x == 0 else x
+    try:
+        if n == "append":
+            v.append(c["v"]); t.append(c["t"]); a.append(c["a"])
+        elif n == "extend":
+            v.extend(c["vs"])
+            if c["ts"] is not None and len(c["ts"]) != len(c["vs"]):
+                return (v, t, a), "AssertionError"
+            t.extend(c["ts"] if c["ts"] is not None else [0] * len(c["vs"]))
+            if c["as"] is not None and len(c["as"]) != len(c["vs"]):
+                return (v, t, a), "AssertionError"
+            a.extend(c["as"] if c["as"] is not None else [0] * len(c["vs"]))
+        elif n == "del":
+            del v[c["i"]]; del t[c["i"]]; del a[c["i"]]
+        elif n == "delslice":
+            del v[c["lo"]:c["hi"]]; del t[c["lo"]:c["hi"]]; del a[c["lo"]:c["hi"]]
+        elif n == "set":
+            v[c["i"]] = c["v"]
+        elif n == "setslice":
+            v[c["lo"]:c["hi"]] = c["vs"]
+        elif n == "insert":
+            v.insert(c["i"], c["v"]); t.insert(c["i"], c["t"]); a.insert(c["i"], c["a"])
+        elif n == "setat":
+            for _ in range(max(0, c["i"] + 1 - len(v))):
+                v.append(0); t.append(0); a.append(0)
+            v[c["i"]] = c["v"]; t[c["i"]] = c["t"]; a[c["i"]] = c["a"]
+        else:
+            raise RuntimeError("unknown sequence call " + n)
+    except IndexError:
+        return (v, t, a), "IndexError"
+    return (v, t, a), "ok"
+
+
+def seq_case(ctx, dendropy, case, pending):
+    """case = {seq3: True, init: [vals, types, annots], calls: [...]}: a CharacterDataSequence edited directly"""
+    from dendropy.datamodel.charmatrixmodel import CharacterDataSequence
+    dec = lambda x: None if x == 0 else x
+    enc = lambda x: 0 if x is None else x
+    v0, t0, a0 = case["init"]
+    seq = CharacterDataSequence([dec(x) for x in v0], [dec(x) for x in t0], [dec(x) for x in a0]) if v0 else CharacterDataSequence()
+    read = lambda: ([enc(x) for x in seq._character_values], [enc(x) for x in seq._character_types], [enc(x) for x in seq._character_annotations])
+    outs = []
+    fmt = lambda st: "V %s T %s A %s" % tuple(".".join(str(x) for x in l) for l in st)
+    for k, c in enumerate(case["calls"]):
+        pre = read()
+        n = c["op"]
+        status = "ok"
+        try:
+            with cpu_limit(TL):
+                if n == "append":
+                    seq.append(dec(c["v"]), dec(c["t"]), dec(c["a"]))
+                elif n == "extend":
+                    seq.extend([dec(x) for x in c["vs"]], None if c["ts"] is None else [dec(x) for x in c["ts"]],
+                               None if c["as"] is None else [dec(x) for x in c["as"]])
+                elif n == "del":
+                    del seq[c["i"]]
+                elif n == "delslice":
+                    del seq[c["lo"]:c["hi"]]
+                elif n == "set":
+                    seq[c["i"]] = dec(c["v"])
+                elif n == "setslice":
+                    seq[c["lo"]:c["hi"]] = [dec(x) for x in c["vs"]]
+                elif n == "insert":
+                    seq.insert(c["i"], dec(c["v"]), dec(c["t"]), dec(c["a"]))
+                elif n == "setat":
+                    seq.set_at(c["i"], dec(c["v"]), dec(c["t"]), dec(c["a"]))
+                else:
+                    raise RuntimeError("unknown sequence call " + n)
+        except Timeout:
+            status = "Timeout"
+        except IndexError:
+            status = "IndexError"
+        except AssertionError:
+            status = "AssertionError"
+        except RuntimeError:
+            raise
+        except Exception as e:
+            status = "Internal(%s)" % type(e).__name__
+        post = read()
+        rep = {"seq3": True, "init": case["init"], "calls": case["calls"][:k + 1], "op": "seq:" + n, "status": status}
+        ctx.case(["seq3", case["init"], case["calls"][:k + 1]], len(pre[0]) >= 1, kind="seq:" + n,
+                 sample={"sequence": list(pre), "call": c})
+        ctx.count("seq:%s:%s" % (n, status))
+        want, want_status = seq_expected(pre, c)
+        aligned_pre = len(pre[0]) == len(pre[1]) == len(pre[2])
+        if status == "Timeout" or status.startswith("Internal"):
+            ctx.fail("Timeout-seq" if status == "Timeout" else "exception", "CharacterDataSequence.%s: %s" % (n, status), rep)
+            return
+        # the statement's part: the VALUES are exactly what the list operation gives (rows change exactly as named) ...
+        if status != want_status or list(post[0]) != want[0]:
+            ctx.fail("element", "CharacterDataSequence %s on %s: %s, values %s; the list operation gives %s, values %s" % (
+                c, list(pre[0]), status, post[0], want_status, want[0]), rep)
+        # ... and types / annotations stay in step with them unless the call is one of the two that cannot keep them so
+        breaks = (n == "extend" and want_status == "AssertionError") or \
+                 (n == "setslice" and len(want[0]) != len(pre[0]))
+        if aligned_pre and not breaks and not (len(post[0]) == len(post[1]) == len(post[2])):
+            ctx.fail("element", "CharacterDataSequence %s left values / types / annotations of lengths %d / %d / %d" % (
+                c, len(post[0]), len(post[1]), len(post[2])), rep)
+        outs.append("%s %s" % (status, fmt(post)))
+    if pending is not None and outs:
+        line = "seq3 %s %d %s" % (" ".join(" ".join([str(len(l))] + [str(x) for x in l]) for l in case["init"]),
+                                   len(case["calls"]), " ".join(seq_tokens(c) for c in case["calls"]))
+        pending.append((line, {"op": {"op": "seq3"}, "case": case}, " | ".join(["ok"] + outs)))
+
+
+def gen_seq_case(rng):
+    n = rng.randint(0, 5)
+    init = [[rng.randint(0 if rng.random() < 0.2 else 1, 9) for _ in range(n)], [rng.randint(0, 3) for _ in range(n)],
+            [rng.randint(0, 3) for _ in range(n)]]
+    calls = []
+    ln = n
+    for _ in range(rng.randint(1, 8)):
+        name = rng.choice(["append", "extend", "extend", "del", "delslice", "set", "setslice", "insert", "setat"])
+        idx = lambda: rng.randint(-ln - 2, ln + 2)
+        opt = lambda: None if rng.random() < 0.25 else idx()
+        c = {"op": name}
+        if name == "append":
+            c.update(v=rng.randint(1, 9), t=rng.randint(0, 3), a=rng.randint(0, 3))
+        elif name == "extend":
+            k = rng.randint(0, 3)
+            c["vs"] = [rng.randint(1, 9) for _ in range(k)]
+            lst = lambda: None if rng.random() < 0.4 else [rng.randint(0, 3) for _ in range(k if rng.random() < 0.8 else rng.randint(0, 4))]
+            c["ts"], c["as"] = lst(), lst()
+        elif name == "del":
+            c["i"] = idx()
+        elif name == "delslice":
+            c["lo"], c["hi"] = opt(), opt()
+        elif name == "set":
+            c.update(i=idx(), v=rng.randint(1, 9))
+        elif name == "setslice":
+            c["lo"], c["hi"] = opt(), opt()
+            c["vs"] = [rng.randint(1, 9) for _ in range(rng.randint(0, 3))]
+        else:
+            c.update(i=idx() if name == "insert" else rng.randint(-ln - 1, ln + 3), v=rng.randint(1, 9), t=rng.randint(0, 3), a=rng.randint(0, 3))
+        calls.append(c)
+        ln = max(0, ln + {"append": 1, "insert": 1, "del": -1}.get(name, 0))
+    return {"seq3": True, "init": init, "calls": calls}
+
+
 # ------------------------------------------------------------------------------------------------ exhaustive small scope
 def row_patterns():
     """every presence x length pattern over 2 taxa, lengths 0..2; cell codes identify (taxon, position)"""
@@ -1873,6 +2057,9 @@ def run(ctx):
             if len(pending) >= 2000:
                 flush(ctx, pending)
             continue
+        if k % 12 == 7:
+            seq_case(ctx, dendropy, gen_seq_case(rng), pending)
+            continue
         if k % 12 == 11:
             stream_case(ctx, dendropy, gen_stream_case(rng), pending)
             if any(f["kind"].startswith("Timeout") and f["replay"].get("stream") for f in ctx.failures[-1:]):
@@ -1944,7 +2131,9 @@ def replay(ctx, rec):
     dendropy = __import__("dendropy")
     c = rec["replay"]
     pending = []
-    if c.get("world"):
+    if c.get("seq3"):
+        seq_case(ctx, dendropy, {"seq3": True, "init": c["init"], "calls": c["calls"]}, pending)
+    elif c.get("world"):
         world_case(ctx, dendropy, {"world": True, "dtype": c["dtype"], "ns_sizes": c["ns_sizes"], "init": c["init"],
                                    "calls": c["calls"]}, pending)
     elif c.get("fasta"):
